@@ -190,7 +190,7 @@ Example C08_example :
 Proof. vm_compute. repeat split; try discriminate; reflexivity. Qed.
 
 Example C08_agrees_example : wf (Arr 3 2 [1;2;3;4;5;6]) /\ agrees (Arr 3 2 [1;2;3;4;5;6]) (fun x y => 1 + x + y * 3).
-Proof. exact (conj (conj (Z.le_0_pos 3) (conj (Z.le_0_pos 2) eq_refl)) agrees_example). Qed.
+Proof. exact wf_agrees_example. Qed.
 
 Example C08_cell_model_example :
   run_calls (Arr 3 2 [1;2;3;4;5;6])
